@@ -5,7 +5,9 @@ runtime LD_PRELOADed, reports abort the worker).  Workloads: argument fuzz of ev
 and of the public wrappers reaching them; crafted utmp files through utmpname(); crafted mounts files;
 interface tables in a private network namespace compared with `ip -j addr`; (thorough) the fast part
 of the upstream test-suite.  Differential decoders written from the ABI catch what red zones cannot
-(intra-object over-reads).
+(intra-object over-reads).  One more shard runs a reduced version of the same workloads on the *uninstrumented*
+build under valgrind memcheck (inside a private netns holding a veth pair and a tun link): reads of
+uninitialised memory - conditional jumps, syscall parameters - are invisible to ASan.
 """
 import ctypes
 import json
@@ -23,16 +25,18 @@ from vlib import harness
 ID = "C17"
 LEVEL = "exploration"
 FLAVOUR = "asan"
-FLAVOURS = ["asan"]
+FLAVOURS = ["asan", "plain"]
 ENGINE = "sanbuild"
-TECHNIQUE = "AddressSanitizer+UBSan build of the C extension under hostile inputs (abort on report) + differential decoders of utmp/mntent/interface records"
+TECHNIQUE = ("AddressSanitizer+UBSan build of the C extension under hostile inputs (abort on report) + differential decoders of "
+             "utmp/mntent/interface records + valgrind memcheck of the plain build (uninitialised reads)")
 RULE = ("cases: (a) every native entry point of _psutil_linux/_psutil_posix and the public wrappers x argument tuples from a "
         "hostile pool (ints 0,+-1,2^15,2^31+-1,2^32,2^63+-1,2^64,10^30; str/bytes of length 0..10^5 incl. NUL and non-UTF-8; wrong "
         "types; sequences of arbitrary ints; huge sequences); (b) generated utmp files (every ut_type, every string field "
         "empty/short/full-width-unterminated, high-bit bytes, :0/:0.0 hosts, 0-200 records, truncated tail) decoded by users() vs "
         "a struct-level decoder; (c) generated mounts files (escapes, long lines, 0-2000 entries, missing fields, non-UTF-8) through "
         "cext.disk_partitions and disk_partitions(all) vs a getmntent(3) reference; (d) veth interface tables in a private netns "
-        "vs `ip -j addr`. non-trivial = input with a full-width unterminated field, an escape, a >=15-byte interface name, an "
+        "vs `ip -j addr` (spelled-out link-locals on 15-char names, tun point-to-point links); (e) a reduced (a)-(c) under valgrind "
+        "memcheck, error blocks with a frame in the extension attributed to the input announced last. non-trivial = input with a full-width unterminated field, an escape, a >=15-byte interface name, an "
         "out-of-int-range integer, a wrong-typed argument; distinct by case hash. A sanitizer report or signal death is a violation.")
 ASSUMPTIONS = [
     "CPython itself is not instrumented; ASan's allocator interposition still covers heap objects handed to the extension and the extension's own stack/global accesses",
@@ -41,6 +45,8 @@ ASSUMPTIONS = [
     "mount lines longer than 4000 bytes: only memory safety is asserted (libc buffer policy is version specific)",
     "non-UTF-8 bytes in mount type/options may raise UnicodeDecodeError (a Python exception is an allowed outcome)",
     "interface sub-workload needs `unshare -n` + veth; when unavailable it is recorded as skipped and only live interfaces are compared",
+    "memcheck: only error blocks with a frame inside the psutil extension count (CPython runs with PYTHONMALLOC=malloc; blocks "
+    "elsewhere are counted as memcheck_error_blocks_outside_extension, 0 on this image); valgrind absent => recorded as skipped",
 ]
 REQUIRED_COUNTERS = ["native_calls", "utmp_records_compared", "mount_entries_compared"]
 SHARD_TIMEOUT = 1500
@@ -73,7 +79,7 @@ def setup():
         from psutil import _psutil_posix as cposix
         ov = os.environ.get("VERIF_OVERLAY", "")
         assert psutil.__file__.startswith(ov), psutil.__file__
-        assert "asan" in cext.__file__, cext.__file__
+        assert ("asan" in cext.__file__) == ("asan" in ov), (cext.__file__, ov)
         _env.update(ps=psutil, cext=cext, cposix=cposix, libc=ctypes.CDLL(None, use_errno=True))
         child = subprocess.Popen([sys.executable, "-c", "import time; time.sleep(3000)"],
                                  env={k: v for k, v in os.environ.items() if k != "LD_PRELOAD"})
@@ -169,8 +175,16 @@ def run_native_fuzz(shard, acc):
     if fname in ("net_if_flags", "net_if_mtu", "net_if_is_running", "net_if_duplex_speed", "disk_partitions"):
         for s in STRS + BYTES:
             combos.append((s,))
+        if fname != "disk_partitions":
+            for _i, ifname in socket.if_nameindex():
+                combos.insert(1, (ifname,))
     if fname == "set_debug":
         combos = [c for c in combos if not (len(c) >= 1 and c[0])] + [(0,)]
+    if shard.get("light") and len(combos) > 260:
+        # under valgrind: a sample of the hostile shapes
+        head = combos[:1 + len(pool)]
+        rest = combos[1 + len(pool):]
+        combos = head + rng.sample(rest, 150)
     for args in combos:
         case = dict(kind="native", mod=shard["mod"], fn=fname, args=[jsonable_arg(a) for a in args])
         harness.mark_current(case)
@@ -580,8 +594,13 @@ def run_netns_case(case, acc):
                     sh("ip", "link", "set", it["peer"], "up")
         harness.mark_current(case)
         ref = json.loads(sh("ip", "-j", "addr", "show").stdout or "[]")
-        addrs = ps.net_if_addrs()
-        stats = ps.net_if_stats()
+        try:
+            addrs = ps.net_if_addrs()
+            stats = ps.net_if_stats()
+        except Exception as e:  # noqa: BLE001
+            acc.case(case, True, [(f"net_if_exception:{type(e).__name__}", f"{e!r} with interfaces {[r.get('ifname') for r in ref]}")])
+            harness.mark_current(None)
+            return
         refd = {r["ifname"]: r for r in ref}
         acc.count("netns_interfaces_compared", len(refd))
         if set(addrs) - set(refd):
@@ -662,6 +681,140 @@ def run_suite(shard, acc):
     harness.mark_current(None)
 
 
+# ---------------------------------------------------------------------------------------------
+# (f) valgrind memcheck on the uninstrumented build: what ASan cannot see (reads of uninitialised memory)
+# ---------------------------------------------------------------------------------------------
+
+VG_KINDS = [("Invalid read", "invalid_read"), ("Invalid write", "invalid_write"), ("Conditional jump", "uninitialised_condition"),
+            ("Use of uninitialised", "uninitialised_value_use"), ("Syscall param", "uninitialised_syscall_param"),
+            ("Invalid free", "invalid_free"), ("Mismatched free", "mismatched_free"), ("Source and destination overlap", "overlap"),
+            ("Argument '", "fishy_size"), ("Jump to the invalid address", "invalid_jump"), ("Process terminating", "terminated_by_signal")]
+
+
+def run_memcheck_child(shard, acc):
+    """Runs INSIDE valgrind: a reduced version of the fuzz + record workloads, every case announced on stderr."""
+    real_mark = harness.mark_current
+
+    def mark(case):
+        if case is not None:
+            sys.stderr.write("@@CASE " + json.dumps(case, default=str)[:1500] + "\n")
+            sys.stderr.flush()
+        real_mark(case)
+    harness.mark_current = mark
+    tmpdir = tempfile.mkdtemp(prefix="c17vg_")
+    try:
+        seed = shard["seed"]
+        for i in range(shard["nrec"]):
+            run_utmp_case(gen_utmp_case(harness.rng_for(seed, "c17u", "vg", i)), acc, tmpdir)
+            run_mounts_case(gen_mounts_case(harness.rng_for(seed, "c17m", "vg", i)), acc, tmpdir)
+        for mod, fns in NATIVE.items():
+            for fn in fns + ["*rest*"]:
+                run_native_fuzz(dict(kind="native", mod=mod, fn=fn, seed=seed, n2=shard["n2"], n3=shard["n2"], light=True), acc)
+        env = setup()
+        ps = env["ps"]
+        for fn in (ps.net_if_addrs, ps.net_if_stats, ps.users, lambda: ps.disk_partitions(all=True), ps.virtual_memory, ps.swap_memory):
+            mark(dict(kind="public", fn=getattr(fn, "__name__", "lambda")))
+            fn()
+            acc.count("native_calls")
+    finally:
+        harness.mark_current = real_mark
+        shutil.rmtree(tmpdir, ignore_errors=True)
+
+
+def parse_memcheck_log(text):
+    """-> list of (kind, block text, case json or None) for error blocks with a frame inside the psutil extension."""
+    out = []
+    cur_case = None
+    block = None
+    for ln in text.splitlines():
+        if ln.startswith("@@CASE "):
+            cur_case = ln[7:]
+            continue
+        m = re.match(r"==\d+== (.*)$", ln)
+        if not m:
+            continue
+        body = m.group(1)
+        if block is None:
+            for needle, kind in VG_KINDS:
+                if body.startswith(needle):
+                    block = [kind, [body], cur_case]
+                    break
+        elif body.strip() == "":
+            out.append(block)
+            block = None
+        else:
+            block[1].append(body)
+    if block is not None:
+        out.append(block)
+    return [(k, "\n".join(lines), c) for k, lines, c in out]
+
+
+def run_memcheck(shard, acc):
+    vg = shutil.which("valgrind")
+    if not vg:
+        acc.count("memcheck_skipped")
+        acc.extra["memcheck"] = "skipped: valgrind not installed"
+        return
+    # private network namespace (see shard_cmd_prefix): links of both kinds the extension decodes
+    made = 0
+    if sh("ip", "link", "set", "lo", "up").returncode == 0:
+        made += sh("ip", "link", "add", "veth-memcheck0", "type", "veth", "peer", "name", "vmc1").returncode == 0
+        made += sh("ip", "tuntap", "add", "dev", "tun-mc", "mode", "tun").returncode == 0
+        sh("ip", "addr", "add", "10.9.8.7/24", "dev", "veth-memcheck0")
+        sh("ip", "addr", "add", "fe80:1111:2222:3333:4444:5555:6666:7777/64", "dev", "veth-memcheck0", "nodad")
+        sh("ip", "addr", "add", "10.1.1.1", "peer", "10.1.1.2/32", "dev", "tun-mc")
+        sh("ip", "addr", "add", "fd00::1", "peer", "fd00::2/128", "dev", "tun-mc")
+        for n in ("veth-memcheck0", "vmc1", "tun-mc"):
+            sh("ip", "link", "set", n, "up")
+    acc.count("memcheck_links_created", made)
+    tmpdir = tempfile.mkdtemp(prefix="c17vgp_")
+    out = os.path.join(tmpdir, "child.json")
+    env = dict(os.environ, PYTHONMALLOC="malloc")
+    env.pop("LD_PRELOAD", None)
+    child = dict(shard, kind="memcheck_child")
+    cmd = [vg, "--error-exitcode=0", "--leak-check=no", "--num-callers=25", "--error-limit=no", "--log-fd=2",
+           sys.executable, "-B", "-m", "vlib.worker", "checks.c17", json.dumps(child), out]
+    try:
+        p = subprocess.run(cmd, env=env, stdout=subprocess.PIPE, stderr=subprocess.PIPE, timeout=shard.get("timeout", 800) - 30)
+        log = p.stderr.decode("utf-8", "replace")
+        rc = p.returncode
+    except subprocess.TimeoutExpired as e:
+        log = (e.stderr or b"").decode("utf-8", "replace")
+        rc = "timeout"
+    res = None
+    if os.path.exists(out):
+        with open(out) as f:
+            res = json.load(f)
+    shutil.rmtree(tmpdir, ignore_errors=True)
+    blocks = parse_memcheck_log(log)
+    acc.count("memcheck_error_blocks_seen", len(blocks))
+    inside = [(k, b, c) for k, b, c in blocks if "psutil" in b]
+    acc.count("memcheck_error_blocks_outside_extension", len(blocks) - len(inside))
+    if res is None:
+        if rc == "timeout":
+            acc.inconclusive = "memcheck child timed out"
+        else:
+            acc.viol("memcheck:child_died", f"rc={rc} :: {log[-1500:]}", dict(kind="memcheck"))
+        return
+    acc.count("memcheck_native_calls", res["counters"].get("native_calls", 0))
+    acc.count("memcheck_records_decoded", res["counters"].get("utmp_records_compared", 0) + res["counters"].get("mount_entries_compared", 0))
+    for v in res["violations"]:
+        acc.viol(v["mech"], v["detail"], v.get("case"))
+    for k, b, c in inside:
+        site = re.search(r"(?:at|by) 0x[0-9A-F]+: (psutil_\w+)", b)
+        case = None
+        if c:
+            try:
+                case = json.loads(c)
+            except ValueError:
+                case = dict(kind="memcheck", raw=c[:300])
+        acc.viol(f"memcheck:{k}" + (f":{site.group(1)}" if site else ""), f"input={c and c[:300]} :: {b[:1500]}", case)
+    acc.case(dict(kind="memcheck", seed=shard["seed"]), True, [])
+    acc.evals += res["evals"] - 1 if res["evals"] else 0
+    for h in res["nontrivial"]:
+        acc.nontrivial.add(h)
+
+
 def classify_report(text):
     m = re.search(r"([\w./-]+\.[ch]):(\d+):\d+: runtime error: ([a-z ]+?)(?: of| by|$| \d| -)", text)
     if m:
@@ -708,6 +861,8 @@ def plan(tier, seed):
         shards.append(dict(kind="mounts", seed=seed, start=s, count=c))
     for i in range(2 if tier == "quick" else 8):
         shards.append(dict(kind="netns", seed=seed, part=i, count=8 if tier == "quick" else 60))
+    shards.append(dict(kind="memcheck", flavour="plain", seed=seed, nrec=25 if tier == "quick" else 400,
+                       n2=3 if tier == "quick" else 60, timeout=800 if tier == "quick" else 3000))
     if tier == "thorough":
         shards.append(dict(kind="suite", files=["test_linux.py", "test_misc.py"], timeout=3000))
         shards.append(dict(kind="suite", files=["test_system.py", "test_posix.py"], timeout=3000))
@@ -716,7 +871,7 @@ def plan(tier, seed):
 
 
 def shard_cmd_prefix(shard):
-    if shard.get("kind") == "netns" or shard.get("origin") == "netns":
+    if shard.get("kind") in ("netns", "memcheck") or shard.get("origin") == "netns":
         return ["unshare", "-n"]
     return []
 
@@ -728,7 +883,8 @@ def run_shard(shard):
         for case in shard["cases"]:
             run_one(case, acc)
         return acc.result()
-    setup()
+    if k != "memcheck":
+        setup()
     tmpdir = tempfile.mkdtemp(prefix="c17_")
     try:
         if k == "native":
@@ -752,6 +908,10 @@ def run_shard(shard):
                     run_netns_case(gen_if_config(harness.rng_for(shard["seed"], "c17n", shard["part"], i), i), acc)
         elif k == "suite":
             run_suite(shard, acc)
+        elif k == "memcheck":
+            run_memcheck(shard, acc)
+        elif k == "memcheck_child":
+            run_memcheck_child(shard, acc)
     finally:
         shutil.rmtree(tmpdir, ignore_errors=True)
         try:
